@@ -86,7 +86,47 @@ pub fn gate_error_kind(e: &GateError) -> &'static str {
 pub fn unitary_result(r: Result<Matrix, GateError>) -> Sexp {
     match r {
         Ok(m) => tagged("ok", vec![mat_to_sexp(&m)]),
-        Err(e) => tagged("err", vec![atom(gate_error_kind(&e))]),
+        Err(e) => {
+            // format the error every way a caller might: a panic in Display/Debug is a crash outcome
+            let _ = format!("{e} {e:#} {e:?}");
+            tagged("err", vec![atom(gate_error_kind(&e))])
+        }
+    }
+}
+
+/// Result of `Program::to_unitary`.
+pub fn program_unitary_result(r: Result<Matrix, quil_rs::program::ProgramError>) -> Sexp {
+    use quil_rs::program::ProgramError;
+    match r {
+        Ok(m) => tagged("ok", vec![mat_to_sexp(&m)]),
+        Err(e) => {
+            let _ = format!("{e} {e:#} {e:?}");
+            match e {
+                ProgramError::UnsupportedForUnitary(_) => tagged("err", vec![atom("unsupported")]),
+                ProgramError::GateError(e) => tagged("err", vec![atom(format!("gate-{}", gate_error_kind(&e)))]),
+                _ => tagged("err", vec![atom("other")]),
+            }
+        }
+    }
+}
+
+/// Build a `Program` from body instructions by one of three public routes: 0 `add_instruction` one by one,
+/// 1 `Program::from_instructions`, 2 `add_instructions`.
+pub fn build_program(instrs: Vec<Instruction>, route: u64) -> quil_rs::Program {
+    match route % 3 {
+        0 => {
+            let mut p = quil_rs::Program::new();
+            for i in instrs {
+                p.add_instruction(i);
+            }
+            p
+        }
+        1 => quil_rs::Program::from_instructions(instrs),
+        _ => {
+            let mut p = quil_rs::Program::new();
+            p.add_instructions(instrs);
+            p
+        }
     }
 }
 
@@ -230,4 +270,34 @@ pub fn parse_gate(name: &str, angle_text: &str, qubits: &[u64]) -> Gate {
         [Instruction::Gate(g)] => g.clone(),
         other => panic!("{text}: parsed to {other:?}"),
     }
+}
+
+/// Parameter texts that only become numbers after simplification, integer-valued, huge and tiny angles.
+pub const EXPR_TEXTS: [&str; 16] = [
+    "2*pi/4", "pi - pi", "-(-1.0)", "1", "2", "-3", "1e6", "1e-12", "0.5*pi", "pi/2 + pi/2", "cos(0)", "sqrt(4)",
+    "123456789.0", "1e15", "2^2", "1 + 2i",
+];
+
+/// `stack name(params…) qubits` as a struct literal: `stack` outermost first, `extra` the qubits consumed by the
+/// CONTROLLED / FORKED modifiers (in order), `base_params` / `base_qubits` what is left after `to_unitary` consumed
+/// the modifiers (each FORKED gets a fresh first half, so the residual parameters are exactly `base_params`).
+pub fn modified_raw(
+    rng: &mut Rng,
+    stack: &[GateModifier],
+    name: &str,
+    base_params: &[Expression],
+    extra: &[u64],
+    base_qubits: &[u64],
+) -> Gate {
+    let mut params: Vec<Expression> = base_params.to_vec();
+    for m in stack.iter().rev() {
+        if matches!(m, GateModifier::Forked) {
+            let mut alt: Vec<Expression> = (0..params.len()).map(|i| real(angle(rng, 12 + i))).collect();
+            alt.extend(params);
+            params = alt;
+        }
+    }
+    let mut qubits: Vec<Qubit> = extra.iter().map(|q| Qubit::Fixed(*q)).collect();
+    qubits.extend(base_qubits.iter().map(|q| Qubit::Fixed(*q)));
+    Gate { name: name.to_string(), parameters: params, qubits, modifiers: stack.to_vec() }
 }
